@@ -1043,3 +1043,142 @@ def rule_F5(ctx, prog, label, rule='F5'):
     rr.ob(ok, dict(obligation='identity block over all columns at rows rank + i'),
           Finding(rule, '%s|identity' % rule, f.loc, f.name, 'the identity block of the kernel basis is wrong: %s; expected (rank + i, i) for i in [0, ncols - rank)' % why, {}, label))
     return rr
+
+
+# ====================================================================== F10 product-cube cover (multi-core front ends)
+F10_FUNCS = ('_mzd_mul_mp4', '_mzd_addmul_mp4')
+_F10_PRODUCTS = ('_mzd_mul_even', '_mzd_addmul_even', 'mzd_mul_m4rm', 'mzd_addmul_m4rm', '_mzd_mul_m4rm', 'mzd_mul', 'mzd_addmul', '_mzd_addmul', '_mzd_mul_mp4', '_mzd_addmul_mp4')
+
+
+def rule_F10(ctx, prog, label, rule='F10'):
+    """C = A*B as a sum over the index cube rows(C) x cols(C) x inner: the products issued by the quadrant scheme and its three
+    remainder strips cover every cell of the cube exactly once (a cell covered twice cancels over GF(2), a cell never covered is
+    missing).  Cut points are ordered by chaining the window intervals; coordinates are linear forms."""
+    rr = RuleResult(rule, 'multi-core products: the block products (quadrants + remainder strips) cover the index cube rows x columns x inner dimension exactly once')
+    for name in F10_FUNCS:
+        f = prog.funcs.get(name)
+        if f is None or f.body is None:
+            continue
+        fs = FuncSym(f)
+        Cn, An, Bn = [p.name for p in f.params[:3]]
+        ids = dict((p.id, p.name) for p in f.params[:3])
+
+        def unify(l):
+            for a, b in (('%s.nrows' % Cn, '%s.nrows' % An), ('%s.ncols' % Cn, '%s.ncols' % Bn), ('%s.nrows' % Bn, '%s.ncols' % An)):
+                l = l.subst(a, Lin.atom(b))
+            return l
+        wins = {}
+        for n in f.body.walk():
+            if n.kind == 'VarDecl' and n.kids and n.init:
+                d0 = strip(n.kids[-1], casts=True)
+                if d0.kind == 'CallExpr' and callee_name(d0) in ('mzd_init_window', 'mzd_init_window_const'):
+                    par = strip(d0.kids[1], casts=True)
+                    if par.kind == 'DeclRefExpr' and par.refid in ids:
+                        wins[n.id] = (ids[par.refid],) + tuple(unify(fs.sym(a)) for a in d0.kids[2:6])
+
+        def rect(a):
+            a0 = strip(a, casts=True)
+            if a0.kind != 'DeclRefExpr':
+                return None
+            if a0.refid in ids:
+                nm = ids[a0.refid]
+                return (nm, Lin(0), Lin(0), unify(Lin.atom('%s.nrows' % nm)), unify(Lin.atom('%s.ncols' % nm)))
+            return wins.get(a0.refid)
+        cubes = []
+        for c in f.body.find('CallExpr'):
+            if callee_name(c) not in _F10_PRODUCTS or len(c.kids) < 4:
+                continue
+            rc, ra, rb = rect(c.kids[1]), rect(c.kids[2]), rect(c.kids[3])
+            if rc is None or ra is None or rb is None or rc[0] != Cn or ra[0] != An or rb[0] != Bn:
+                if fs.enclosing(c, ('IfStmt',)) is not None and any(callee_name(x) == 'mzd_init' for x in (fs.enclosing(c, ('IfStmt',)) or c).find('CallExpr')):
+                    continue      # base case on temporaries
+                raise AnalysisBroken('F10: operands of `%s` in %s are not blocks of C, A, B' % (pp(c)[:50], name))
+            cubes.append((c, (rc[1], rc[3]), (rc[2], rc[4]), (ra[2], ra[4]), (ra, rb)))
+        if len(cubes) < 5:
+            raise AnalysisBroken('F10: only %d block products recognised in %s' % (len(cubes), name))
+
+        def order(intervals, lo, hi):
+            """chain of cut points lo -> ... -> hi through the given [a, b) intervals"""
+            def go(cur, depth):
+                if cur == hi:
+                    return [cur]
+                if depth > 6:
+                    return None
+                for (a, b) in intervals:
+                    if a == cur and not (b == cur):
+                        r = go(b, depth + 1)
+                        if r is not None:
+                            return [cur] + r
+                return None
+            return go(lo, 0)
+        m_, n_, k_ = Lin.atom('%s.nrows' % An), Lin.atom('%s.ncols' % Bn), Lin.atom('%s.ncols' % An)
+        # finest chains: prefer short intervals first so that every cut point appears
+        def finest(ivs, lo, hi):
+            pts = [lo]
+            cur = lo
+            for _ in range(8):
+                if cur == hi:
+                    break
+                nxt = [b for (a, b) in ivs if a == cur and not (b == cur)]
+                if not nxt:
+                    return None
+                # the nearest next cut: one that is itself the start of another interval or the end
+                best = None
+                for b in nxt:
+                    if any(a2 == b for (a2, _b2) in ivs) or b == hi:
+                        if best is None or any((a2 == b and b2 == best) for (a2, b2) in ivs):
+                            best = b
+                cur = best if best is not None else nxt[0]
+                pts.append(cur)
+            return pts if pts[-1] == hi else None
+        dims = []
+        for di, (lo, hi) in enumerate(((Lin(0), m_), (Lin(0), n_), (Lin(0), k_))):
+            ivs = []
+            for cb in cubes:
+                iv = cb[1 + di]
+                if not any(iv[0] == x[0] and iv[1] == x[1] for x in ivs):
+                    ivs.append(iv)
+            ch = finest(ivs, lo, hi)
+            if ch is None:
+                raise AnalysisBroken('F10: cut points of dimension %d of %s do not chain from 0 to the full extent' % (di, name))
+            dims.append(ch)
+
+        def idx(ch, v):
+            for i, x in enumerate(ch):
+                if x == v:
+                    return i
+            return None
+        cover = {}
+        bad_cube = None
+        for cb in cubes:
+            rng = []
+            for di in range(3):
+                a, b = idx(dims[di], cb[1 + di][0]), idx(dims[di], cb[1 + di][1])
+                if a is None or b is None or a > b:
+                    bad_cube = cb
+                    break
+                rng.append(range(a, b))
+            if bad_cube is not None:
+                break
+            for i in rng[0]:
+                for j in rng[1]:
+                    for k in rng[2]:
+                        cover.setdefault((i, j, k), []).append(cb[0])
+        rr.instances += 1
+        if bad_cube is not None:
+            raise AnalysisBroken('F10: block `%s` of %s does not sit on the cut points' % (pp(bad_cube[0])[:50], name))
+        problems = []
+        for i in range(len(dims[0]) - 1):
+            for j in range(len(dims[1]) - 1):
+                for k in range(len(dims[2]) - 1):
+                    cs = cover.get((i, j, k), [])
+                    cell = 'rows [%r, %r) x columns [%r, %r) x inner [%r, %r)' % (dims[0][i], dims[0][i + 1], dims[1][j], dims[1][j + 1], dims[2][k], dims[2][k + 1])
+                    if len(cs) == 0:
+                        problems.append((f, 'no product covers %s' % cell))
+                    elif len(cs) > 1:
+                        problems.append((cs[-1], '%s is covered by %d products (`%s` and `%s`): over GF(2) the contribution cancels' % (cell, len(cs), pp(cs[0])[:40], pp(cs[-1])[:40])))
+        rr.ob(not problems, dict(function=name, products=len(cubes), cuts=[[repr(x) for x in d] for d in dims]),
+              Finding(rule, '%s|%s' % (rule, name), (problems[0][0].loc if problems else f.loc), name,
+                      'the block products of %s do not cover the index cube exactly once: %s' % (name, '; '.join(p[1] for p in problems[:2])), {}, label))
+    rr.require_floor(2, 'multi-core product schemes')
+    return rr
